@@ -430,7 +430,19 @@ func (in *w13Instance) retire() {
 		}
 	}
 	in.ensureExecutors()
-	in.freeze()
+	if in.dirty {
+		// a handler panicked or is stuck: the instance is garbage. Stop its timer loops right now (the
+		// 500 ms / 1 s ticks would otherwise park goroutines on a shard mutex that is never released,
+		// and those keep the whole instance in memory); the rest happens in close().
+		if !in.noStop {
+			in.slock.state = STATE_CLOSE
+			for _, db := range in.allDbs() {
+				db.status = STATE_CLOSE
+			}
+		}
+	} else {
+		in.freeze()
+	}
 	w13SwitchMu.Lock()
 	old := w13Prev
 	w13Prev = in
